@@ -797,6 +797,23 @@ def add_bool_stmts(line, rng, asserts=False):
         for _ in range(rng.choice([0, 1, 1, 2, 3])):
             # keep the loop counter update (last statement) and the guards (first statement) where they are, mostly
             stmts.insert(rng.randint(0, len(stmts)), rand_bstmt(rng, nv, nbool))
+        if rng.random() < 0.5:
+            # b := constraint ... assume(b) / assume(not b) / through a negated copy / through a conjunction: the constraint
+            # (or its negation) is recovered at the assume unless a variable of it changed in between
+            b = rng.randrange(nbool)
+            p = rng.randint(0, len(stmts))
+            stmts.insert(p, "bassign %d %s" % (b, fmt_cst(gen_cst(rng, nv, small=True, maxterms=2))))
+            q = rng.randint(p + 1, len(stmts))
+            use = rng.choice(["a", "a", "n", "not", "and"])
+            b2 = rng.randrange(nbool)
+            if use == "a": u = ["bassume %d" % b]
+            elif use == "n": u = ["bnassume %d" % b]
+            elif use == "not": u = ["bnot %d %d" % (b2, b), rng.choice(["bassume %d", "bnassume %d"]) % b2]
+            else: u = ["bbin and %d %d %d" % (b2, b, rng.randrange(nbool)), "bassume %d" % b2]
+            stmts[q:q] = u
+            if asserts and rng.random() < 0.4:
+                na += 1
+                stmts.insert(rng.randint(q + len(u), len(stmts)), "assert %s %d" % (fmt_cst(gen_cst(rng, nv, kinds=("le", "le", "eq", "ne", "lt"), small=True, maxterms=2)), na))
         if asserts and rng.random() < 0.3:
             na += 1
             stmts.insert(rng.randint(0, len(stmts)), "bassert %d %d" % (rng.randrange(nbool), na))
